@@ -9,7 +9,7 @@ For each malloc/realloc/calloc call (un-inlined per-function IR):
      realloc this includes the overwrite of the old pointer (commit on success only).
 """
 from .facts import Prover, _k
-from .ir import resolve_addr, is_arg
+from .ir import resolve_addr, is_arg, const_int
 
 ALLOCATORS = ('malloc', 'realloc', 'calloc')
 
@@ -29,6 +29,10 @@ def aliases(fn, ref):
                 if u.ref not in out:
                     out.add(u.ref)
                     work.append(u.ref)
+            elif u.op == 'phi' and u.ref not in out and all(o in out or o == 'null' or const_int(o) == 0 for o in u.o):
+                # "the block or NULL" merged from a helper's early returns: non-NULL means it is the block
+                out.add(u.ref)
+                work.append(u.ref)
     return out
 
 
